@@ -553,3 +553,22 @@ fn encode_column(col: BasicTypeColumn, encode_opts: &EncodingOpts) -> api::Colum
         }
     }
 }
+
+#[cfg(feature = "verif")]
+pub fn verif_encode_column(col: BasicTypeColumn, encode_opts: &EncodingOpts) -> api::Column {
+    encode_column(col, encode_opts)
+}
+
+#[cfg(feature = "verif")]
+pub fn verif_query_output_to_json_cols(result: QueryOutput) -> serde_json::Value {
+    query_output_to_json_cols(result)
+}
+
+/// Status code `map_err_response` assigns to a query result (200 = passed through as `Ok`).
+#[cfg(feature = "verif")]
+pub fn verif_map_err_status(result: Result<QueryOutput, QueryError>) -> u16 {
+    match map_err_response(result) {
+        Ok(_) => 200,
+        Err(response) => response.status().as_u16(),
+    }
+}
